@@ -12,11 +12,16 @@ use rand::prelude::SliceRandom;
 use rand::RngCore;
 use serde_json::json;
 
-fn run_real<R: Ord>(n_cases: usize, pop: &Vec<Ind<R>>, rng: &mut SplitMix) -> String {
+fn run_real<R: Ord>(n_cases: usize, pop: &Vec<Ind<R>>, rng: &mut SplitMix) -> String { run_real_w(n_cases, pop, rng, true) }
+
+fn run_real_w<R: Ord>(n_cases: usize, pop: &Vec<Ind<R>>, rng: &mut SplitMix, warm: bool) -> String {
     let res = std::panic::catch_unwind(std::panic::AssertUnwindSafe(|| -> Result<usize, String> {
         let idx = |r: &Ind<R>| index_of(pop, r).map_or_else(|| Err("NOT-A-MEMBER".to_string()), Ok);
         if let Some(r) = mutants::lexicase(n_cases, pop, rng) { return r.and_then(idx); }
-        Lexicase::new(n_cases).select(pop, rng).map_err(|e| e.canon()).and_then(idx)
+        let sel = Lexicase::new(n_cases);
+        let mut w = rng.clone();
+        if warm { warm_up(&sel, pop, &mut w); }
+        sel.select(pop, rng).map_err(|e| e.canon()).and_then(idx)
     }));
     match res {
         Ok(Ok(i)) => format!("ok {i}"),
@@ -61,13 +66,17 @@ fn one_case(d: &mut crate::driver::Driver, r: &mut Report, prop: &str, tag: &str
     let mut shadow = real_rng.clone();
     let mut second = real_rng.clone();
     let mut oracle_rng = real_rng.clone();
-    let (real, again) = if score {
+    let mut fresh_rng = real_rng.clone();
+    let (real, again, fresh) = if score {
         let p = mk_score(pop);
-        (run_real(n_cases, &p, &mut real_rng), run_real(n_cases, &p, &mut second))
+        (run_real(n_cases, &p, &mut real_rng), run_real(n_cases, &p, &mut second), run_real_w(n_cases, &p, &mut fresh_rng, false))
     } else {
         let p = mk_error(pop);
-        (run_real(n_cases, &p, &mut real_rng), run_real(n_cases, &p, &mut second))
+        (run_real(n_cases, &p, &mut real_rng), run_real(n_cases, &p, &mut second), run_real_w(n_cases, &p, &mut fresh_rng, false))
     };
+    if fresh != real || fresh_rng != real_rng {
+        r.violate(json!({"case": req, "tag": tag, "what": "a selector value that was used before gives a different result than a fresh one from equal generator states: hidden state between calls (C16)", "used_before": real, "fresh": fresh}));
+    }
     let det_ok = real == again && real_rng == second;
     let words = real_rng.words;
     let model = d.ask_with(&req, |p| prims::answer(p, &mut shadow, &mut prims::no_user));
